@@ -459,6 +459,7 @@ Definition cases : list (cli_config * cli_outcome) := [
 			}
 		}
 	}
+	runs += targetStage(meta, tier, base, bin)
 	meta.Distribution["binary_runs"] = runs
 	return runs
 }
